@@ -1,7 +1,6 @@
-(* ChronoSafe.v — C15, the arithmetic guards: ParseSecondFractions is exact, SafeDurationCast and both
-   SafeAddDuration overloads return the exact value or report out_of_range and never wrap — outside two
-   input classes of SafeDurationCast (N1, N2) on which the faithful model shows a wrapped result resp.
-   signed overflow. *)
+(* ChronoSafe.v — C15, the arithmetic guards: ParseSecondFractions is exact, SafeDurationCast returns the
+   exact value or reports out_of_range and never wraps (the three branches reachable with commensurable
+   periods; the quotient/remainder form of the coarser-unit branch after repo commit 30f5d3e). *)
 From BS Require Import Base ChronoSpec ChronoModel ChronoArith ChronoDecimal.
 From Coq Require Import ZifyBool ZifyN ZifyNat.
 Local Open Scope Z_scope.
@@ -96,15 +95,6 @@ Definition cast_spec (from to : dty) (c : Z) : Prop :=
   | _ => False
   end.
 
-(* the two input classes on which the code is wrong (to a coarser period, num = 1 < den):
-   N1  negative count into an unsigned target: the count is converted to uint64 before the division,
-       and the check "v * den == count" is satisfied modulo 2^64 when den divides 2^64 + count;
-   N2  uint64 count above INT64_MAX into a signed target: "v * den" is evaluated in int64 and overflows *)
-Definition defect_N1 (from to : dty) (c : Z) : Prop :=
-  is_signed (d_rep from) = true /\ d_rep to = U64 /\ c < 0 /\ snd (ratio_div from to) <> 1.
-Definition defect_N2 (from to : dty) (c : Z) : Prop :=
-  d_rep from = U64 /\ is_signed (d_rep to) = true /\ tmax I64 < c /\ snd (ratio_div from to) <> 1.
-
 Definition scA (sr tr : ity) (c : Z) : outcome Z :=
   let v := cast tr c in
   if negb (c =? cast sr v) || sign_mismatch c v then Err OutOfRange else Ok v.
@@ -121,11 +111,11 @@ Definition scB (sr tr : ity) (num c : Z) : outcome Z :=
 
 Definition scC (sr tr : ity) (den c : Z) : outcome Z :=
   let op := common3 tr sr I64 in
+  if is_signed sr && negb (is_signed tr) && (c <? 0) then Err OutOfRange else
   q <- cdiv op (cast op c) (cast op den) ;;
+  if negb (Z.rem (cast op c) (cast op den) =? 0) then Err OutOfRange else
   let v := cast tr q in
-  let mt := uac tr I64 in
-  m <- arith mt (cast mt v * cast mt den) ;;
-  if negb (cast sr m =? c) then Err OutOfRange else Ok v.
+  if negb (cast op v =? q) || sign_mismatch q v then Err OutOfRange else Ok v.
 
 Lemma safe_cast_unfold from to c :
   safe_cast from to c =
@@ -262,73 +252,36 @@ Proof.
     split; [lia|]. nia.
 Qed.
 
-Lemma nl_facts v q den : 2 <= den ->
-  (v = q -> v * den = den * q) /\
-  (Z.abs v <= Z.abs q -> Z.abs (v * den) <= Z.abs (den * q)) /\
-  (v * den = den * q -> v = q) /\
-  (v * den = - (den * q) -> v = - q) /\
-  ((0 <= v -> 0 <= v * den) /\ (v <= 0 -> v * den <= 0) /\ (v < 0 -> v * den < 0)) /\
-  ((0 <= q -> 0 <= den * q) /\ (q <= 0 -> den * q <= 0) /\ Z.abs q <= Z.abs (den * q)).
-Proof.
-  intros Hd.
-  split; [intros ->; ring|].
-  split. { intros H. rewrite !Z.abs_mul. rewrite (Z.abs_eq den) by lia. nia. }
-  split. { intros H. nia. }
-  split. { intros H. nia. }
-  split. { repeat split; intros; nia. }
-  repeat split; intros; try nia.
-Qed.
-
-Ltac use_N HN1 HN2 c :=
-  try (assert (0 <= c) by (destruct (Z.le_gt_cases 0 c); [assumption | exfalso; apply HN1; repeat split; first [reflexivity | lia]]));
-  try (assert (c <= 9223372036854775807)
-        by (destruct (Z.le_gt_cases c 9223372036854775807); [assumption | exfalso; apply HN2; repeat split; first [reflexivity | lia]])).
+Lemma castA' sr tr c : fits sr c = true ->
+  (negb (cast sr (cast tr c) =? c) || sign_mismatch c (cast tr c)) = negb (fits tr c).
+Proof. intros H. rewrite <- (castA sr tr c H). rewrite (Z.eqb_sym c). reflexivity. Qed.
 
 Lemma scC_spec sr tr den c :
   rep4 sr -> rep4 tr -> 2 <= den <= 4611686018427387904 -> fits sr c = true ->
-  ~ (is_signed sr = true /\ tr = U64 /\ c < 0) -> ~ (sr = U64 /\ is_signed tr = true /\ tmax I64 < c) ->
   scC sr tr den c = if (Z.rem c den =? 0) && fits tr (Z.quot c den) then Ok (Z.quot c den) else Err OutOfRange.
 Proof.
-  intros Hsr Htr Hden Hc HN1 HN2. unfold scC. cbv zeta.
-  set (op := common3 tr sr I64). set (mt := uac tr I64).
-  assert (Hcc : cast op c = c).
-  { apply cast_fits. subst op. destruct Hsr as [?|[?|[?|?]]], Htr as [?|[?|[?|?]]]; subst sr tr;
-      cbv [common3 common_rep ity_eqb uac promote]; cbn [is_signed] in *; unfits; use_N HN1 HN2 c; lia. }
-  assert (Hdo : cast op den = den).
-  { apply cast_fits. destruct (op_cases tr sr) as [E|E]; fold op in E; rewrite E; fits_tac. }
-  assert (Hdm : cast mt den = den).
-  { apply cast_fits. subst mt. destruct Htr as [?|[?|[?|?]]]; subst tr; cbv [uac promote]; fits_tac. }
-  rewrite Hcc, Hdo, Hdm. unfold cdiv. replace (den =? 0) with false by lia.
+  intros Hsr Htr Hden Hc. unfold scC. cbv zeta.
+  set (op := common3 tr sr I64).
   destruct (quot_facts c den ltac:(lia)) as (E & Br & Hpos & Hneg).
-  set (q := Z.quot c den) in *. set (r := Z.rem c den) in *. clearbody q r.
-  assert (Hq : fits op q = true).
-  { subst op. destruct Hsr as [?|[?|[?|?]]], Htr as [?|[?|[?|?]]]; subst sr tr;
-      cbv [common3 common_rep ity_eqb uac promote]; cbn [is_signed] in *; unfits; use_N HN1 HN2 c; lia. }
-  rewrite (arith_fits _ _ Hq), bind_ok.
-  (* the products, as opaque quantities with the facts linear arithmetic needs *)
-  pose proof (cast_range tr q) as Hvr. pose proof (cast_mod tr q) as Hvm.
-  assert (Hvf : fits tr q = true -> cast tr q = q) by apply cast_fits.
-  set (v := cast tr q) in *. clearbody v.
-  assert (Hcv : cast mt v = v).
-  { apply cast_fits. subst mt. destruct Htr as [?|[?|[?|?]]]; subst tr; cbv [uac promote]; unfits; lia. }
-  rewrite Hcv.
-  destruct (nl_facts v q den ltac:(lia)) as (Na & Nb & Nc & Nf & Nd & Ne).
-  set (m := v * den) in *. set (P := den * q) in *. clearbody m P.
-  assert (Hm : fits mt m = true).
-  { subst mt. destruct Hsr as [?|[?|[?|?]]], Htr as [?|[?|[?|?]]]; subst sr tr;
-      cbv [uac promote]; cbn [is_signed] in *; unfits; use_N HN1 HN2 c; lia. }
-  rewrite (arith_fits _ _ Hm), bind_ok.
-  pose proof (cast_range sr m) as Hsr_r. pose proof (cast_mod sr m) as Hsr_m.
-  assert (Hsf : fits sr m = true -> cast sr m = m) by apply cast_fits.
-  set (s := cast sr m) in *. clearbody s.
-  destruct (fits tr q) eqn:Efq.
-  - (* the quotient fits the target: v = q *)
-    specialize (Hvf eq_refl). rewrite andb_true_r.
-    assert (s = c <-> r = 0).
-    { destruct Hsr as [?|[?|[?|?]]], Htr as [?|[?|[?|?]]]; subst sr tr; cbn [is_signed] in *; unfits; use_N HN1 HN2 c; lia. }
-    destruct (Z.eqb_spec s c), (Z.eqb_spec r 0); cbn [negb]; try reflexivity; try tauto; subst v; reflexivity.
-  - rewrite andb_false_r.
-    assert (s <> c).
-    { destruct Hsr as [?|[?|[?|?]]], Htr as [?|[?|[?|?]]]; subst sr tr; cbn [is_signed] in *; unfits; use_N HN1 HN2 c; lia. }
-    destruct (Z.eqb_spec s c); [contradiction | reflexivity].
+  destruct (is_signed sr && negb (is_signed tr) && (c <? 0)) eqn:Eneg.
+  - (* negative count, unsigned target *)
+    apply andb_true_iff in Eneg. destruct Eneg as [Eneg Hc0]. apply andb_true_iff in Eneg. destruct Eneg as [_ Htu].
+    assert (Etr : tr = U64) by (destruct Htr as [?|[?|[?|?]]]; subst tr; cbn in Htu; congruence). subst tr.
+    destruct (Z.eqb_spec (Z.rem c den) 0) as [Er|Er]; cbn [andb]; [|reflexivity].
+    replace (fits U64 (Z.quot c den)) with false; [reflexivity|].
+    symmetry. apply Bool.not_true_iff_false. rewrite fits_U64. nia.
+  - assert (Hcc : cast op c = c).
+    { apply cast_fits. subst op. destruct Hsr as [?|[?|[?|?]]], Htr as [?|[?|[?|?]]]; subst sr tr;
+        cbv [common3 common_rep ity_eqb uac promote]; cbn [is_signed negb andb] in *; unfits; lia. }
+    assert (Hdo : cast op den = den).
+    { apply cast_fits. destruct (op_cases tr sr) as [E1|E1]; fold op in E1; rewrite E1; fits_tac. }
+    rewrite Hcc, Hdo. unfold cdiv. replace (den =? 0) with false by lia.
+    set (q := Z.quot c den) in *. set (r := Z.rem c den) in *. clearbody q r.
+    assert (Hq : fits op q = true).
+    { subst op. destruct Hsr as [?|[?|[?|?]]], Htr as [?|[?|[?|?]]]; subst sr tr;
+        cbv [common3 common_rep ity_eqb uac promote]; cbn [is_signed negb andb] in *; unfits; lia. }
+    rewrite (arith_fits _ _ Hq), bind_ok.
+    destruct (Z.eqb_spec r 0) as [Er|Er]; cbn [negb andb]; [|reflexivity].
+    rewrite (castA' op tr q Hq).
+    destruct (fits tr q) eqn:Ef; cbn [negb]; [rewrite cast_fits by exact Ef|]; reflexivity.
 Qed.
